@@ -6,6 +6,8 @@
 // 2-byte header x extended length with every cut; the documented accessors of the returned message; send() in all overloads and
 // frame types; the server handshake in many request shapes (also through HttpServer::link), connect() against a scripted server
 // whose response is cut at every byte; and the client/server handshake + echo under all interleavings (vsched).
+// Object re-use: one client WebSocket / one WebSocketServer lives through every history of uses up to a depth (refused and rejected connects, exchanges,
+// connections ended by either side) and is then probed with every length form in both directions: it must frame like a fresh object.
 #include <asl/WebSocket.h>
 #include <asl/HttpServer.h>
 #include <asl/Socket.h>
@@ -22,6 +24,7 @@ using vf::fmt;
 
 static int W_BADALLOC, C_EVAL, C_DIST, C_EXEC, C_POINTS, W_LEN16, W_LEN64, W_MASKED, W_FRAG, W_PING_BETWEEN, W_HOSTILE_CLOSED, W_HOSTILE_MSG, W_NEG64, W_HANDSHAKE, W_PREEMPT;
 static int W_CUT, W_CUT_INFRAME, W_CUT_MIDMSG, W_CLOSE, W_CLOSE_REASON, W_CLOSE_MID, W_PONG_IN, W_PING_EMPTY, W_PING125, W_TWO_CTL, W_ACC, W_NUL, W_NONCANON, W_BIGFRAG, W_BIGLEN, W_CHUNKED,
+	W_RH_CLIENT, W_RH_COMPARED, W_RH_SENT, W_RH_REFUSED, W_RH_BADRESP, W_RH_RECONNECT, W_RH_SERVER, W_RH_SRV_LATER, W_RH_PRE, W_RH_BOTH,
 	W_SEND_FORMS, W_VAR, W_AKX, W_AKX_NOSPACE, W_AKX_HTTP, W_CONN, W_CONN_FAIL, W_CONN_OK, W_ECHO_BIG, W_HOSTILE_STRICT, W_PONGS_CHECKED, W_CLOSE_CODE;
 static std::string g_case;
 static void onFatal(const char* what, const std::string& schedule) {
@@ -31,7 +34,8 @@ static void onFatal(const char* what, const std::string& schedule) {
 	vf::restart_worker();
 }
 // a failure class listed as "known:" is counted, not reported (every class has its own exact signature)
-static void report(const std::string& sig, const std::string& desc, const std::string& kase) { if (vf::known(sig)) vf::known_hit(sig, desc + "; case " + kase); else vf::violation(sig, desc, kase); }
+static int g_reports; // report() calls of this process (a history of uses stops at its first failure)
+static void report(const std::string& sig, const std::string& desc, const std::string& kase) { g_reports++; if (vf::known(sig)) vf::known_hit(sig, desc + "; case " + kase); else vf::violation(sig, desc, kase); }
 
 // ---------------------------------------------------------------- reference RFC 6455 framer / deframer
 struct Frame { bool fin; int rsv; int opcode; bool masked; unsigned char key[4]; std::string payload; int lenMode; }; // lenMode 0 canonical, 1 force 16-bit, 2 force 64-bit
@@ -521,6 +525,297 @@ static void connectCase(int kind, int cut, const std::string& kase) {
 	if (!verdict.empty()) report("connect_result", verdict + what, kase);
 }
 
+// ---------------------------------------------------------------- object re-use histories
+// The families above build a fresh WebSocket (or server) for every case and use it once. Here ONE object lives through a history of uses and
+// is then probed with the framing that matters (payload lengths on both sides of the 7-bit / 16-bit / 64-bit length forms, a message fragmented
+// across the 16- and 64-bit forms, a ping) in the role of the object: a re-used object must frame exactly like a fresh one (the empty history).
+// one execution under the default schedule; the state probe (a hash over all bytes in flight at every schedule point) is off: states are not counted here
+static void runHist(const std::function<void()>& body) {
+	vsched::set_early_timeouts(false); vsched::set_state_probe(0);
+	vsched::Result x = vsched::run_once(std::vector<uint8_t>(), body, 4000000); vf::add(C_EXEC); vf::add(C_POINTS, x.points.size());
+	vsched::set_state_probe(vnet::state_hash); vsched::set_early_timeouts(true);
+}
+static const int PROBE[] = { 1, 125, 126, 300, 65535, 65536, 70000 }; enum { NPROBE = 7 };
+static std::string fragProbe(bool masked, bool withPing, unsigned key) { // a text message of 126 + 65536 bytes in two frames (16-bit and 64-bit length form), optionally a ping 'pi' in between
+	std::string p = pattern(126 + 65536, 4), s = frameBytes(mkFrame(false, 1, masked, p.substr(0, 126), key));
+	if (withPing) s += frameBytes(mkFrame(true, 9, masked, "pi", key + 1));
+	return s + frameBytes(mkFrame(true, 0, masked, p.substr(126), key + 2));
+}
+static const std::string& probeStream(bool masked, bool withPing, bool withClose) {
+	static std::string cache[8]; std::string& s = cache[masked * 4 + withPing * 2 + withClose]; if (!s.empty()) return s; // per worker process
+	static const unsigned keys[] = { 0x37fa213du, 0x00ff8001u, 0x01000000u, 0xffffffffu, 0x80000001u, 0x00000100u, 0xa5a55a5au };
+	for (int i = 0; i < NPROBE; i++) s += frameBytes(mkFrame(true, 2, masked, pattern(PROBE[i], PROBE[i] % 7), keys[i]));
+	s += fragProbe(masked, withPing, 0x11223344u) + frameBytes(mkFrame(true, 1, masked, "END", 0x0badf00du));
+	if (withClose) s += frameBytes(mkFrame(true, 8, masked, std::string("\x03\xe8", 2), 0x5eed5eedu));
+	return s;
+}
+static std::string histName(const std::string& ops) { return ops.empty() ? std::string("fresh object") : "object after the history [" + ops + "]"; }
+
+// environment model: the name "nohost.invalid" (RFC 2606) does not resolve, and no resolver is asked; every other lookup goes to the C library
+#include <netdb.h>
+#include <dlfcn.h>
+extern "C" int getaddrinfo(const char* node, const char* service, const struct addrinfo* hints, struct addrinfo** res) {
+	static int (*real)(const char*, const char*, const struct addrinfo*, struct addrinfo**) = 0; if (!real) *(void**)&real = dlsym(RTLD_NEXT, "getaddrinfo");
+	if (node && !strcmp(node, "nohost.invalid")) return EAI_NONAME;
+	return real(node, service, hints, res);
+}
+// ---- client role: one WebSocket object, every use is one attempt to connect (with what follows on that connection)
+//  R connect() to a port where nobody listens (refused at TCP level)      W connect("wss://...") (refused: built without TLS)      C close()
+//  B the server answers 400     G it answers with a blank line     T its 101 response ends inside the header block     U 101 response without Upgrade field
+//  X 101, text frame 'hello' received, text message sent, close()        P 101, 300-byte frame and Close frame 4321 'bye' received
+//  E 101, 65536-byte frame received, then the server drops the connection        M 101, frame announcing 300 bytes of which 100 arrive
+//  F 101, first fragment of a message, then the server drops the connection
+//  D connect() to a host name that does not resolve (the resolver is modelled: see getaddrinfo below)      S connect() to [::1] where nobody listens (the socket changes its address family)
+static const char CH_OPS[] = "RDSWCBGTUXPEMF";
+struct HPeer : public Thread {
+	Socket* lst; int kind, cut; std::string extra; bool readBack; bool accepted; std::string got;
+	void run() {
+		Socket c = lst->accept(); if (c.handle() < 0) return; accepted = true;
+		std::string req; for (int i = 0; i < 40; i++) { String l = c.readLine(); if (l.length() == 0) break; req += std::string(*l, l.length()) + "\n"; if (l == "\r") break; }
+		std::string key; { size_t a = req.find("Sec-WebSocket-Key: "); if (a != std::string::npos) { a += 19; size_t b = req.find('\r', a); key = req.substr(a, b - a); } }
+		std::string r = respOf(kind, sha1b64(key + "258EAFA5-E914-47DA-95CA-C5AB0DC85B11"));
+		if (cut >= 0 && cut < (int)r.size()) r.resize(cut);
+		r += extra;
+		if (!r.empty()) c.write(r.data(), (int)r.size());
+		if (readBack) for (;;) { char buf[4096]; int n = c.read(buf, sizeof buf); if (n <= 0) break; got.append(buf, n); }
+		c.close();
+	}
+};
+// one connection attempt of `ws` to a scripted server on port 9000; client(ok) is the client's side of it. The listener lives for this use only.
+template <class F> static void withPeer(WebSocket& ws, int kind, int cut, const std::string& extra, bool readBack, std::string& got, F client) {
+	Socket lst; lst.bind("127.0.0.1", 9000); lst.listen(2);
+	HPeer peer; peer.lst = &lst; peer.kind = kind; peer.cut = cut; peer.extra = extra; peer.readBack = readBack; peer.accepted = false; peer.start();
+	bool ok = ws.connect("127.0.0.1", 9000);
+	client(ok);
+	if (!peer.accepted) { Socket d; d.connect("127.0.0.1", 9000); d.close(); } // never leave the peer thread waiting in accept()
+	peer.join(); got = peer.got; lst.close();
+}
+// receive() until the connection is closed; the result is compared like a scripted stream (the peer of these uses closes after its last byte)
+static void recvAll(WebSocket& ws, int maxCalls, RecvOut& o) {
+	o.emptyReturns = 0; o.negLen = o.badAlloc = false; o.closedAtEnd = 0; o.code = 0;
+	for (int i = 0; i < maxCalls && !ws.closed(); i++) {
+		try { WebSocketMsg m = ws.receive(); if (m.length() < 0) o.negLen = true; if (m.length() > 0) { ByteArray b = m; o.msgs.push_back(std::string((const char*)b.data(), b.length())); } else o.emptyReturns++; }
+		catch (std::bad_alloc&) { o.badAlloc = true; break; }
+	}
+	o.closedAtEnd = ws.closed(); o.code = ws.code();
+}
+// frames a peer got from a sender of the given role: every frame final, canonical, mask bit of the role; returns the payloads by opcode
+static std::string parseSent(const std::string& got, bool fromClient, std::vector<std::pair<int, std::string> >& frames) {
+	size_t pos = 0;
+	while (pos < got.size()) {
+		Frame f; bool canon; size_t used = parseFrameAt(got, pos, f, &canon);
+		if (!used) return fmt("the %d bytes sent are not whole frames (frame %d starts at byte %d)", (int)got.size(), (int)frames.size() + 1, (int)pos);
+		if (!f.fin || f.rsv || f.masked != fromClient || !canon) return fmt("frame %d sent: fin %d rsv %d masked %d canonical-length %d", (int)frames.size() + 1, (int)f.fin, f.rsv, (int)f.masked, (int)canon);
+		frames.push_back(std::make_pair(f.opcode, f.payload)); pos += used;
+	}
+	return "";
+}
+static void clientHistCase(const std::string& ops, const std::string& kase) {
+	g_case = kase; vf::cur(kase); vf::add(C_EVAL); vf::add(C_DIST);
+	for (size_t i = 0; i < ops.size(); i++) if (!strchr(CH_OPS, ops[i])) { fprintf(stderr, "s_c11_ws: unknown use '%c' in %s\n", ops[i], kase.c_str()); exit(2); }
+	std::string asan; int before = g_reports, compared = 0, sentChecked = 0;
+	auto body = [&]() {
+		vf::asan_clear(); vnet::reset(); vnet::enable(true); vnet::set_limits(0, 0);
+		{
+			WebSocket ws; ws._random.seed(2024);
+			std::string done;
+			auto failed = [&]() { return g_reports != before; };
+			auto mustFail = [&](bool ok, const std::string& what) { if (ok || !ws.closed()) report("connect_result", std::string(ok ? "connect() returned true" : "connect() failed but closed() is false") + ": " + what + ", " + histName(done), kase); if (ok) ws.close(); };
+			// a use whose server closes after its last byte: everything received is compared with the model of the stream
+			auto halfDuplex = [&](int kind, const std::string& stream, const std::string& what) {
+				std::string got; Model m = modelOf(stream, true);
+				withPeer(ws, kind, -1, stream, false, got, [&](bool ok) {
+					std::string w = what + ", " + histName(done);
+					if (!ok) { report("connect_result", "connect() returned false: " + w, kase); ws.close(); return; }
+					RecvOut o; recvAll(ws, (int)m.msgs.size() + 3, o); compared += (int)o.msgs.size();
+					checkStream(o, m, true, kase, w); });
+			};
+			for (size_t i = 0; i <= ops.size() && !failed(); i++) {
+				char op = i < ops.size() ? ops[i] : '!'; std::string got;
+				switch (op) {
+				case 'R': mustFail(ws.connect("127.0.0.1", 9001), "connect() to a port without listener"); break;
+				case 'D': mustFail(ws.connect("nohost.invalid", 9000), "connect() to a host name that does not resolve"); break;
+				case 'S': mustFail(ws.connect("ws://[::1]:9001"), "connect() to an IPv6 address and port without listener"); break;
+				case 'W':
+#ifndef ASL_TLS
+					mustFail(ws.connect("wss://127.0.0.1:9000"), "connect() to a wss: URL without TLS support");
+#endif
+					break;
+				case 'C': ws.close(); if (!ws.closed()) report("eof_not_closed", "closed() is false after close(), " + histName(done), kase); break;
+				case 'B': case 'G': case 'T': case 'U': {
+					int kind = op == 'B' ? 3 : op == 'G' ? 7 : op == 'T' ? 0 : 4;
+					withPeer(ws, kind, op == 'T' ? 40 : -1, "", false, got, [&](bool ok) { mustFail(ok, fmt("connect() to a server answering with response %d%s", kind, op == 'T' ? " ended after 40 bytes" : "")); });
+					break; }
+				case 'X':
+					withPeer(ws, 0, -1, frameBytes(mkFrame(true, 1, false, "hello")), true, got, [&](bool ok) {
+						if (!ok) { report("connect_result", "connect() returned false: server answering 101, " + histName(done), kase); ws.close(); return; }
+						RecvOut o; recvAll(ws, 1, o);
+						if (o.msgs.size() != 1 || o.msgs[0] != "hello") report("message_bytes", fmt("the text frame 'hello' sent behind the 101 response arrived as %d message(s)", (int)o.msgs.size()) + ", " + histName(done), kase);
+						ws.send(String("from-client")); ws.close(); });
+					if (!failed()) { std::vector<std::pair<int, std::string> > fr; std::string bad = parseSent(got, true, fr); if (bad.empty() && (fr.size() != 1 || fr[0].first != 1 || fr[0].second != "from-client")) bad = fmt("%d frame(s) instead of the text frame 'from-client'", (int)fr.size());
+						if (!bad.empty()) report("send_framing", "send(String) as client, " + histName(done) + ": " + bad, kase); }
+					break;
+				case 'P': halfDuplex(1, frameBytes(mkFrame(true, 2, false, pattern(300, 2))) + ctlFrame(8, false, 0), "300-byte binary frame and Close frame 4321 'bye' from the server"); break;
+				case 'E': halfDuplex(0, frameBytes(mkFrame(true, 2, false, pattern(65536, 1))), "65536-byte binary frame from the server, which then drops the connection"); break;
+				case 'M': halfDuplex(0, frameBytes(mkFrame(true, 2, false, pattern(300, 3))).substr(0, 104), "frame announcing 300 bytes of which 100 arrive"); break;
+				case 'F': halfDuplex(0, frameBytes(mkFrame(false, 1, false, "frag")), "first fragment of a text message, then the server drops the connection"); break;
+				case '!': { // the probe: (a) everything a server can send, compared with the model; (b) a ping answered and every probe length sent by the client
+					halfDuplex(1, probeStream(false, false, true), "probe: binary frames of 1, 125, 126, 300, 65535, 65536, 70000 bytes, a text message in fragments 126|65536, text frame END and Close frame 1000 from the server");
+					if (failed()) break;
+					std::string in = frameBytes(mkFrame(true, 9, false, "pi")) + frameBytes(mkFrame(true, 2, false, pattern(126, 0))) + frameBytes(mkFrame(true, 2, false, pattern(65536, 6)));
+					withPeer(ws, 0, -1, in, true, got, [&](bool ok) {
+						if (!ok) { report("connect_result", "connect() returned false: server answering 101, " + histName(done), kase); ws.close(); return; }
+						RecvOut o; recvAll(ws, 2, o); compared += (int)o.msgs.size();
+						if (o.msgs.size() != 2 || o.msgs[0] != pattern(126, 0) || o.msgs[1] != pattern(65536, 6)) report("message_bytes", fmt("probe: ping 'pi', 126-byte and 65536-byte binary frames from the server arrived as %d message(s)%s", (int)o.msgs.size(), o.msgs.empty() ? "" : fmt(", the first of %d bytes", (int)o.msgs[0].size()).c_str()) + ", " + histName(done), kase);
+						else for (int k = 0; k < NPROBE; k++) { std::string p = pattern(PROBE[k], 5); ws.send(ByteArray((const byte*)p.data(), (int)p.size())); }
+						ws.close(); });
+					if (failed()) break;
+					std::vector<std::pair<int, std::string> > fr; std::string bad = parseSent(got, true, fr);
+					if (bad.empty() && (fr.empty() || fr[0].first != 10 || fr[0].second != "pi")) { report("pong", "probe: the ping 'pi' was not answered by a pong 'pi' before anything else was sent, " + histName(done), kase); break; }
+					if (bad.empty() && fr.size() != 1 + NPROBE) bad = fmt("%d frames instead of %d", (int)fr.size() - 1, (int)NPROBE);
+					for (int k = 0; bad.empty() && k < NPROBE; k++) { if (fr[k + 1].first != 2) bad = fmt("opcode %d for the binary message of %d bytes", fr[k + 1].first, PROBE[k]); else if (fr[k + 1].second != pattern(PROBE[k], 5)) bad = fmt("payload of the %d-byte message differs after unmasking (%d bytes)", PROBE[k], (int)fr[k + 1].second.size()); sentChecked++; }
+					if (!bad.empty()) report("send_framing", "probe: send(ByteArray) of 1, 125, 126, 300, 65535, 65536, 70000 bytes as client, " + histName(done) + ": " + bad, kase);
+					break; }
+				}
+				if (i < ops.size()) done += op;
+			}
+			ws.close();
+		}
+		vnet::enable(false);
+		if (vf::asan_tripped()) asan = vf::asan_what();
+	};
+	runHist(body);
+	if (!asan.empty()) report("asan", "ASan " + asan + " in the uses of a client " + histName(ops), kase);
+	vf::add(W_RH_CLIENT);
+	if (!ops.empty() && g_reports == before) {
+		vf::add(W_RH_COMPARED, compared); vf::add(W_RH_SENT, sentChecked);
+		if (ops.find_first_of("RDS") != std::string::npos) vf::add(W_RH_REFUSED); if (ops.find_first_of("BGTU") != std::string::npos) vf::add(W_RH_BADRESP); if (ops.find_first_of("XPEMF") != std::string::npos) vf::add(W_RH_RECONNECT);
+	}
+}
+
+// ---- server role: one WebSocketServer object (optionally linked to one HttpServer object) serves a history of connections, one after the other
+//  N plain HTTP request     L request with a header line without colon     Z connection without a byte     H upgrade request ending inside the header block
+//  X upgrade, masked binary frames of 126 and 65536 bytes, Close 1000        P upgrade asking for a protocol, text frame 'hello', Close 4321 'bye'
+//  E upgrade, 300-byte frame, connection dropped       M upgrade, frame announcing 300 bytes of which 100 arrive       F upgrade, first fragment, connection dropped
+//  K upgrade, unmasked frame (not allowed from a client: safety only)
+static const char SH_OPS[] = "NLZHXPEMFK";
+struct HistServer : public WebSocketServer {
+	std::vector<std::string> seen; int code, calls, limit; bool closedEnd;
+	HistServer() : code(0), calls(0), limit(64), closedEnd(false) {}
+	void serve(WebSocket& ws) { calls++; int n = 0; for (int i = 0; i < 64 && n < limit && !ws.closed(); i++) { WebSocketMsg m = ws.receive(); if (m.length() > 0) { ByteArray b = m; seen.push_back(std::string((const char*)b.data(), b.length())); ws.send(ByteArray(b)); n++; } } closedEnd = n < limit ? ws.closed() : true; code = ws.code(); }
+};
+static std::string wsRequest(const std::string& key, bool proto) { return "GET /chat HTTP/1.1\r\nHost: h\r\nUpgrade: websocket\r\nConnection: Upgrade\r\nSec-WebSocket-Key: " + key + "\r\n" + (proto ? "Sec-WebSocket-Protocol: chat\r\n" : "") + "Sec-WebSocket-Version: 13\r\n\r\n"; }
+static void serverHistCase(int via, int pre, const std::string& ops, const std::string& kase) {
+	g_case = kase; vf::cur(kase); vf::add(C_EVAL);
+	for (size_t i = 0; i < ops.size(); i++) if (!strchr(SH_OPS, ops[i])) { fprintf(stderr, "s_c11_ws: unknown use '%c' in %s\n", ops[i], kase.c_str()); exit(2); }
+	if (pre && !via) return; // a plain request before the upgrade on the same connection needs the HttpServer
+	vf::add(C_DIST);
+	std::string asan; int before = g_reports, compared = 0;
+	auto body = [&]() {
+		vf::asan_clear(); vnet::reset(); vnet::enable(true); vnet::set_limits(0, 0);
+		{
+			HistServer srv; HttpServer http; if (via) http.link(srv);
+			std::string done;
+			for (size_t i = 0; i <= ops.size() && g_reports == before; i++) {
+				char op = i < ops.size() ? ops[i] : '!';
+				std::string key = fmt("%016dAAAAAA==", (int)(i + 1) * 7919), frames, in, what; bool isWs = true, proto = false;
+				switch (op) {
+				case 'N': in = "GET /index HTTP/1.1\r\nHost: h\r\n\r\n"; isWs = false; break;
+				case 'L': in = "GET /chat HTTP/1.1\r\nUpgrade: websocket\r\nbroken line\r\n\r\n"; isWs = false; break;
+				case 'Z': isWs = false; break;
+				case 'H': in = wsRequest(key, false).substr(0, 60); isWs = false; break;
+				case 'X': frames = frameBytes(mkFrame(true, 2, true, pattern(126, 1), 0x00ff8001u)) + frameBytes(mkFrame(true, 2, true, pattern(65536, 2), 0x80000001u)) + ctlFrame(7, true, 0x5eed5eedu); what = "masked binary frames of 126 and 65536 bytes and Close frame 1000"; break;
+				case 'P': proto = true; frames = frameBytes(mkFrame(true, 1, true, "hello", 0x01020304u)) + ctlFrame(8, true, 0x5eed5eedu); what = "masked text frame 'hello' and Close frame 4321 'bye'"; break;
+				case 'E': frames = frameBytes(mkFrame(true, 2, true, pattern(300, 2), 0xa5a55a5au)); what = "masked 300-byte frame, then the client drops the connection"; break;
+				case 'M': frames = frameBytes(mkFrame(true, 2, true, pattern(300, 3), 0xa5a55a5au)).substr(0, 108); what = "masked frame announcing 300 bytes of which 100 arrive"; break;
+				case 'F': frames = frameBytes(mkFrame(false, 1, true, "frag", 0x01020304u)); what = "first fragment of a text message, then the client drops the connection"; break;
+				case 'K': frames = frameBytes(mkFrame(true, 2, false, pattern(126, 1))); what = "unmasked 126-byte frame"; break;
+				case '!': frames = probeStream(true, true, true); what = "probe: masked binary frames of 1, 125, 126, 300, 65535, 65536, 70000 bytes, a text message in fragments 126|65536 with a ping in between, text frame END and Close frame 1000"; break;
+				}
+				if (isWs) in = wsRequest(key, proto) + frames;
+				if (op == '!' && pre) in = "GET /index HTTP/1.1\r\nHost: h\r\nConnection: keep-alive\r\n\r\n" + in;
+				srv.seen.clear(); srv.closedEnd = false; srv.code = 0; int calls0 = srv.calls;
+				int fd = vnet::scripted(in.empty() ? std::vector<std::string>() : std::vector<std::string>(1, in));
+				{ Socket c(fd); if (via) ((SocketServer&)http).serve(c); else ((SocketServer&)srv).serve(c); }
+				std::string written = vnet::written(fd);
+				if (isWs) {
+					std::string w = what + (op == '!' && pre ? " behind a plain request on the same connection" : "") + (via ? ", through HttpServer::link" : "") + ", server " + histName(done);
+					std::string want = "Sec-WebSocket-Accept: " + sha1b64(key + "258EAFA5-E914-47DA-95CA-C5AB0DC85B11") + "\r\n";
+					size_t h0 = written.find("HTTP/1.1 101"), he = h0 == std::string::npos ? h0 : written.find("\r\n\r\n", h0);
+					if (h0 == std::string::npos || (h0 != 0 && !(op == '!' && pre)) || he == std::string::npos || written.substr(h0, he + 2 - h0).find(want) == std::string::npos) { report("accept_key", "server handshake response for key " + key + " does not carry '" + want.substr(0, want.size() - 2) + "': " + vf::hex(written.substr(0, 200)) + ": " + w, kase); break; }
+					if (srv.calls != calls0 + 1) { report("handshake", fmt("serve(WebSocket&) was called %d times for one connection: ", srv.calls - calls0) + w, kase); break; }
+					Model m = modelOf(frames, false);
+					RecvOut o; o.msgs = srv.seen; o.emptyReturns = 0; o.negLen = o.badAlloc = false; o.closedAtEnd = srv.closedEnd; o.code = srv.code;
+					// what the server wrote behind its response: pongs (compared by checkStream) and the echoes
+					std::string rest = written.substr(he + 4), echoes; std::vector<std::string> echoed; size_t pos = 0; bool whole = true;
+					while (pos < rest.size()) { Frame f; bool canon; size_t used = parseFrameAt(rest, pos, f, &canon); if (!used) { whole = false; break; } if (f.opcode == 10) o.written += rest.substr(pos, used); else { echoes += rest.substr(pos, used); echoed.push_back(f.payload); } pos += used; }
+					checkStream(o, m, false, kase, w);
+					if (m.strict && g_reports == before) {
+						std::string wantEcho; for (size_t k = 0; k < m.msgs.size(); k++) wantEcho += frameBytes(mkFrame(true, 2, false, m.msgs[k]));
+						if (!whole || echoes != wantEcho) report("handshake", fmt("the %d message(s) were not echoed behind the response as %d unmasked binary frames with canonical lengths (%d frame(s) written%s): ", (int)m.msgs.size(), (int)m.msgs.size(), (int)echoed.size(), whole ? "" : ", then bytes that are no frame") + w, kase);
+						compared += (int)m.msgs.size();
+					}
+				}
+				if (i < ops.size()) done += op;
+			}
+		}
+		vnet::enable(false);
+		if (vf::asan_tripped()) asan = vf::asan_what();
+	};
+	runHist(body);
+	if (!asan.empty()) report("asan", "ASan " + asan + " in the connections served by a server " + histName(ops), kase);
+	vf::add(W_RH_SERVER);
+	if (g_reports == before) { if (!ops.empty()) { vf::add(W_RH_SRV_LATER); vf::add(W_RH_COMPARED, compared); } if (pre) vf::add(W_RH_PRE); }
+}
+
+// ---- library client object against library server object, both re-used: R connect() refused, X echo of a 126-byte message then close() by the client,
+// Y echo of a 300-byte message after which the server ends the connection; then every probe length is echoed
+static const char CS_OPS[] = "RXY";
+struct LoopAcceptor : public Thread {
+	HistServer* srv; Socket* lst; volatile bool stop; std::vector<int> limits; int n;
+	void run() { for (n = 0; ; n++) { Socket c = lst->accept(); if (stop || c.handle() < 0) return; srv->limit = n < (int)limits.size() ? limits[n] : 64; ((SocketServer*)srv)->serve(c); } }
+};
+static void bothHistCase(const std::string& ops, const std::string& kase) {
+	g_case = kase; vf::cur(kase); vf::add(C_EVAL); vf::add(C_DIST);
+	for (size_t i = 0; i < ops.size(); i++) if (!strchr(CS_OPS, ops[i])) { fprintf(stderr, "s_c11_ws: unknown use '%c' in %s\n", ops[i], kase.c_str()); exit(2); }
+	std::string asan, verdict; int compared = 0;
+	auto body = [&]() {
+		vf::asan_clear(); vnet::reset(); vnet::enable(true); vnet::set_limits(0, 0); verdict.clear(); compared = 0;
+		{
+			HistServer srv; Socket lst; lst.bind("127.0.0.1", 9000); lst.listen(4);
+			LoopAcceptor acc; acc.srv = &srv; acc.lst = &lst; acc.stop = false; acc.n = 0;
+			for (size_t i = 0; i < ops.size(); i++) if (ops[i] != 'R') acc.limits.push_back(ops[i] == 'Y' ? 1 : 64);
+			acc.start();
+			std::vector<std::string> sent;
+			{
+				WebSocket ws; ws._random.seed(777); std::string done;
+				auto echo = [&](int len, int seed) { std::string p = pattern(len, seed); sent.push_back(p); ws.send(ByteArray((const byte*)p.data(), (int)p.size())); WebSocketMsg m = ws.receive(); ByteArray b = m; compared++;
+					if (b.length() != len || memcmp(b.data(), p.data(), len) != 0) verdict += fmt("client received %d bytes instead of its %d-byte echo (%s); ", b.length(), len, histName(done).c_str()); };
+				for (size_t i = 0; i <= ops.size() && verdict.empty(); i++) {
+					char op = i < ops.size() ? ops[i] : '!';
+					if (op == 'R') { if (ws.connect("127.0.0.1", 9001) || !ws.closed()) verdict += "connect() to a port without listener did not fail; "; }
+					else if (!ws.connect("127.0.0.1", 9000)) verdict += "client connect() failed (" + histName(done) + "); ";
+					else if (op == 'X') { echo(126, 1); ws.close(); }
+					else if (op == 'Y') { echo(300, 2); WebSocketMsg m = ws.receive(); if (m.length() != 0 || !ws.closed()) verdict += "the client does not see that the server ended the connection; "; }
+					else { for (int k = 0; k < NPROBE && verdict.empty(); k++) echo(PROBE[k], k); ws.close(); }
+					if (i < ops.size()) done += op;
+				}
+				ws.close();
+			}
+			acc.stop = true; { Socket d; d.connect("127.0.0.1", 9000); d.close(); }
+			acc.join(); lst.close();
+			if (verdict.empty() && srv.seen != sent) verdict += fmt("the server received %d message(s), %d were sent, or their bytes differ; ", (int)srv.seen.size(), (int)sent.size());
+		}
+		if (vnet::misuse()) verdict += fmt("%d operation(s) on closed descriptors; ", vnet::misuse());
+		vnet::enable(false);
+		if (vf::asan_tripped()) asan = vf::asan_what();
+	};
+	runHist(body);
+	if (!asan.empty()) report("asan", "ASan " + asan + " in client and server " + histName(ops), kase);
+	if (!verdict.empty()) report("handshake", verdict + "library client and server objects, " + histName(ops), kase);
+	vf::add(W_RH_BOTH); if (!ops.empty() && verdict.empty()) vf::add(W_RH_COMPARED, compared);
+}
+
 // ---- reference SHA-1 + base64 (std only; RFC 6455 sample vector asserted at start-up)
 static std::string sha1b64(const std::string& in) {
 	uint32_t h[5] = { 0x67452301, 0xEFCDAB89, 0x98BADCFE, 0x10325476, 0xC3D2E1F0 };
@@ -555,11 +850,16 @@ static void run_case(const std::string& k) {
 	else if (sscanf(k.c_str(), "conn:%d:%d", &a, &b) == 2) connectCase(a, b, k);
 	else if (sscanf(k.c_str(), "echo:%d:%d", &a, &b) == 2) handshakeJob(0, a, 0, b);
 	else if (sscanf(k.c_str(), "handshake:%d:%d", &a, &b) == 2) { std::string sched; size_t bar = k.find('|'); if (bar != std::string::npos) sched = k.substr(bar + 1); handshakeJob(a, b, bar == std::string::npos ? 0 : &sched); }
+	else if (k.compare(0, 3, "ch:") == 0) clientHistCase(k.substr(3) == "-" ? std::string() : k.substr(3), k);
+	else if (sscanf(k.c_str(), "sh:%d:%d:", &a, &b) == 2) { std::string o = k.substr(k.rfind(':') + 1); serverHistCase(a, b, o == "-" ? std::string() : o, k); }
+	else if (k.compare(0, 3, "cs:") == 0) bothHistCase(k.substr(3) == "-" ? std::string() : k.substr(3), k);
 	else { fprintf(stderr, "s_c11_ws: unknown case '%s'\n", k.c_str()); exit(2); }
 }
 // all nondecreasing triples over the given cut values
 static std::vector<std::vector<int> > triples(const std::vector<int>& vals) { std::vector<std::vector<int> > r; for (size_t i = 0; i < vals.size(); i++) for (size_t j = i; j < vals.size(); j++) for (size_t l = j; l < vals.size(); l++) { std::vector<int> t; t.push_back(vals[i]); t.push_back(vals[j]); t.push_back(vals[l]); r.push_back(t); } return r; }
 static std::vector<int> upto(int n) { std::vector<int> v; for (int i = 0; i <= n; i++) v.push_back(i); return v; }
+// all strings over the alphabet up to the given length ("-" is the empty one)
+static std::vector<std::string> histories(const char* alphabet, int depth) { std::vector<std::string> r(1, "-"), level(1, ""); for (int d = 1; d <= depth; d++) { std::vector<std::string> next; for (size_t i = 0; i < level.size(); i++) for (const char* c = alphabet; *c; c++) next.push_back(level[i] + *c); r.insert(r.end(), next.begin(), next.end()); level = next; } return r; }
 static size_t streamSize(int len, bool masked) { return 2 + (len < 126 ? 0 : len < 65536 ? 2 : 8) + (masked ? 4 : 0) + len + 2 + (masked ? 4 : 0) + 3; }
 
 // wall seconds per family, kept in the part file (info.phase_seconds)
@@ -575,6 +875,9 @@ int main(int argc, char** argv) {
 	W_ACC = vf::counter("w.messages_seen_through_string_accessors"); W_NUL = vf::counter("w.messages_with_nul_seen_through_accessors"); W_NONCANON = vf::counter("w.noncanonical_length_forms_accepted"); W_BIGFRAG = vf::counter("w.fragments_of_126_bytes_or_more"); W_BIGLEN = vf::counter("w.payloads_above_70000"); W_CHUNKED = vf::counter("w.payloads_in_4096_byte_chunks");
 	W_SEND_FORMS = vf::counter("w.send_overloads_and_frame_types"); W_VAR = vf::counter("w.var_messages"); W_AKX = vf::counter("w.handshake_request_shapes"); W_AKX_NOSPACE = vf::counter("w.requests_without_space_after_colon"); W_AKX_HTTP = vf::counter("w.handshakes_through_httpserver_link");
 	W_CONN = vf::counter("w.connects_to_scripted_server"); W_CONN_FAIL = vf::counter("w.connects_refused"); W_CONN_OK = vf::counter("w.connects_accepted"); W_ECHO_BIG = vf::counter("w.large_echoes_over_a_filling_pipe"); W_HOSTILE_STRICT = vf::counter("w.hostile_streams_compared_exactly");
+	W_RH_CLIENT = vf::counter("w.reuse_client_histories"); W_RH_COMPARED = vf::counter("w.reuse_messages_compared_on_reused_objects"); W_RH_SENT = vf::counter("w.reuse_frames_sent_by_reused_clients"); W_RH_REFUSED = vf::counter("w.reuse_connected_after_refused_connect");
+	W_RH_BADRESP = vf::counter("w.reuse_connected_after_rejected_handshake"); W_RH_RECONNECT = vf::counter("w.reuse_connected_again_after_a_connection"); W_RH_SERVER = vf::counter("w.reuse_server_histories"); W_RH_SRV_LATER = vf::counter("w.reuse_server_probed_after_earlier_connections");
+	W_RH_PRE = vf::counter("w.reuse_upgrade_behind_plain_request_on_same_connection"); W_RH_BOTH = vf::counter("w.reuse_client_and_server_histories");
 	vsched::set_fatal_handler(onFatal);
 	vsched::set_state_probe(vnet::state_hash);
 	if (sha1b64("dGhlIHNhbXBsZSBub25jZQ==258EAFA5-E914-47DA-95CA-C5AB0DC85B11") != "s3pPLMBiTxaQ9kYGzzhZRbK+xOo=") { fprintf(stderr, "HARNESS ERROR: reference SHA-1/base64 fails the RFC 6455 vector\n"); return 2; }
@@ -663,10 +966,22 @@ int main(int argc, char** argv) {
 	{ int el[] = { 70001, (1 << 20) + 1, 1 << 22 }, ep[] = { 4096, 1 << 20 }; vf::parallel(T ? 6 : 4, [&](uint64_t i) { run_case(fmt("echo:%d:%d", el[i / 2], ep[i % 2])); }); }
 	phase("handshake_shapes_connect_echo");
 	{ int lensH[] = { 1, 5, 126 }; int nb = T ? 3 : 2; vf::parallel(3 * nb, [&](uint64_t i) { handshakeJob((int)(i % nb), lensH[i / nb], 0); }); }
-	phase("handshake_interleavings"); vf::setinfo("phase_seconds", "{" + g_phases + "}");
+	phase("handshake_interleavings");
+	// (7) object re-use: every history of uses up to the depth of the tier, then the probe
+	{
+		int depth = T ? 3 : 2;
+		std::vector<std::string> jobs, hs;
+		hs = histories(CH_OPS, depth); for (size_t i = 0; i < hs.size(); i++) jobs.push_back("ch:" + hs[i]);
+		vf::parallel(jobs.size(), [&](uint64_t i) { run_case(jobs[i]); }, 2); phase("reuse_client"); jobs.clear();
+		hs = histories(SH_OPS, depth); for (size_t i = 0; i < hs.size(); i++) for (int v = 0; v < 3; v++) jobs.push_back(fmt("sh:%d:%d:", v ? 1 : 0, v == 2 ? 1 : 0) + hs[i]);
+		vf::parallel(jobs.size(), [&](uint64_t i) { run_case(jobs[i]); }, 2); phase("reuse_server"); jobs.clear();
+		hs = histories(CS_OPS, depth + 1); for (size_t i = 0; i < hs.size(); i++) jobs.push_back("cs:" + hs[i]);
+		vf::parallel(jobs.size(), [&](uint64_t i) { run_case(jobs[i]); }, 2); phase("reuse_client_and_server");
+	} vf::setinfo("phase_seconds", "{" + g_phases + "}");
 	vf::sample("binary frame of 65536 bytes, masked with key 01ff8001, followed by text frame END; delivered whole / header|rest / read(1) / in 4096-byte chunks; the same stream ended after every number of bytes");
 	vf::sample("5-byte text message fragmented 2|0|1|2 with a ping of 125 bytes before fragment 2 and a Close frame (4321 'bye') before fragment 3; hostile frame 8f ff 00 00 00 00 80 00 00 00 cut at every byte");
 	vf::sample("request 'sec-websocket-key:<key>' (lower case, no space) with 'Connection: keep-alive, Upgrade' through HttpServer::link; connect() to a server whose 101 response ends after 57 bytes");
 	vf::sample("WebSocket::connect(127.0.0.1:9000) against WebSocketServer::serve over a 9-byte pipe, echo of a 126-byte message, all schedules with <= 1 preemption");
+	vf::sample("one WebSocket object: connect() refused (nobody listens), connect() answered with 400, then connect() accepted: frames of 1..70000 bytes, fragments 126|65536, ping, Close 1000 received and seven lengths sent; one WebSocketServer serving a truncated upgrade, a connection ended by Close 4321, then the probe connection");
 	return vf::finish();
 }
